@@ -252,7 +252,17 @@ func (fr *faultRun) afterTx() bool {
 			"no transaction open but lock state is shared=%d pending=%v reservedFree=%v", shared, pending, resFree)
 		return false
 	}
-	return w.VerifyCommitted()
+	if !w.VerifyCommitted() {
+		return false
+	}
+	// the allocator must still be consistent with the last committed state: no
+	// page owned twice, and (without overflow area) no page leaked by a failed commit
+	mon := w.Mon
+	w.Mon.Partition, w.Mon.Coverage = true, true
+	s := w.F.VerifSnapshot()
+	ok := w.checkPartition(&s, "transaction under fault plan")
+	w.Mon = mon
+	return ok
 }
 
 func (fr *faultRun) reopenFaulty() bool {
